@@ -258,7 +258,8 @@ EMPTY_FORMS = ['bare', 'assign', 'quoted', 'no', 'null']     # --k | --k= | --k=
 SUFFIXES = ['', '', '', '?', '??', ';main', ';a;b', '!opt', '!o=1', ';t!o', '?;t', '??;t>u', ';*']
 HOSTS = ['*', '0.0.0.0', '0', '127.0.0.1', 'localhost', 'cam-host', '']
 EDGE_PORTS = [1024, 5000, 5547, 5548, 5549, 5550, 5551, 5552, 5553, 5554, 5556, 6000, 6001, 64999, 65000]
-ID_POOL = ['a', 'b', 'cam', 'v1', 'Util', 'Util1', 'Util2', 'VideoIn', 'VideoIn1', 'Webvis', 'x-y', 'a.b']
+ID_POOL = ['a', 'b', 'cam', 'v1', 'Util', 'Util1', 'Util2', 'VideoIn', 'VideoIn1', 'Webvis', 'x-y', 'a.b',
+           'util', 'Cam', 'CAM', 'A', 'videoin', 'x_y', 'X-Y']      # ids are case-sensitive: 'Util' and 'util' are two filters
 EXTRA_OPTS = [['--sources_timeout', '5'], ['--outputs_jpg'], ['--no-outputs_metrics'], ['--log', 'pretty'], ['--mq_log=all'],
               ['--sources_balance'], ['--fps=30'], ['--exit_after', '10'], ['--bgr=false'], ['--environment', 'dev'],
               ['--outputs_balance=true'], ['--zzz', 'file://z'], ['--port', '8000']]
